@@ -478,19 +478,20 @@ static void run_cmd(int ntok, char **tok) {
          *   zck_dl_reset; range = zck_get_missing_range(ctx, limit); zck_dl_set_range;
          *   the response for exactly those ranges is built (plain body for one range, multipart/byteranges
          *   otherwise), its header lines go to zck_header_cb and its body to zck_write_chunk_cb in fragments.
-         * options: boundary=STR quoted=1 extra=1 (extra part headers) leadcrlf=0 forcemulti=1 lower=1
+         * options: boundary=STR quoted=1 extra=1 (extra part headers) fold=1 (Content-Type folded over two header lines) leadcrlf=0 forcemulti=1 lower=1
          *          corrupt=N (flip bit 0 of payload byte N of the response, counted over payload bytes only)
          *          cuts=a,b,c (explicit fragment boundaries in the body stream; overrides frag)
          *          hdrfrag=1 (each header line in its own call - always the case) stop=N (deliver only N body bytes)
          *          partend=1 (fragments end exactly on the last payload byte of every part, as a server that flushes per
          *          part delivers them) */
         int d = C(1), c = C(2); const char *bpath = A(3); int limit = (int)AI(4); long frag = (long)AI(5);
-        const char *boundary = "zckBOUNDARYzck"; int quoted = 0, extra = 0, leadcrlf = 1, forcemulti = 0, lower = 0, partend = 0; long corrupt = -1, stop = -1;
+        const char *boundary = "zckBOUNDARYzck"; int quoted = 0, extra = 0, leadcrlf = 1, forcemulti = 0, lower = 0, partend = 0, fold = 0; long corrupt = -1, stop = -1;
         char cutsbuf[4096] = ""; int usercb = 0;
         for(int k = 6; k < ntok; k++) {
             if(!strncmp(tok[k], "boundary=", 9)) boundary = tok[k] + 9;
             else if(!strncmp(tok[k], "quoted=", 7)) quoted = atoi(tok[k] + 7);
             else if(!strncmp(tok[k], "extra=", 6)) extra = atoi(tok[k] + 6);
+            else if(!strncmp(tok[k], "fold=", 5)) fold = atoi(tok[k] + 5);
             else if(!strncmp(tok[k], "leadcrlf=", 9)) leadcrlf = atoi(tok[k] + 9);
             else if(!strncmp(tok[k], "forcemulti=", 11)) forcemulti = atoi(tok[k] + 11);
             else if(!strncmp(tok[k], "lower=", 6)) lower = atoi(tok[k] + 6);
@@ -551,6 +552,12 @@ static void run_cmd(int ntok, char **tok) {
             char *x = strdup(l1); hret += zck_header_cb(x, 1, strlen(l1), dl) == strlen(l1); hcalls++; free(x);
             if(multi) snprintf(hdr, sizeof hdr, quoted ? "Content-Type: multipart/byteranges; boundary=\"%s\"\r\n" : "Content-Type: multipart/byteranges; boundary=%s\r\n", boundary);
             else snprintf(hdr, sizeof hdr, "Content-Range: bytes %llu-%llu/%lld\r\n", (unsigned long long)r->first->start, (unsigned long long)r->first->end, (long long)st.st_size);
+            if(multi && fold) {
+                /* the Content-Type header folded over two lines (obs-fold): the parameter arrives in a header callback of its own */
+                const char *f1 = "Content-Type: multipart/byteranges;\r\n";
+                x = strdup(f1); hret += zck_header_cb(x, 1, strlen(f1), dl) == strlen(f1); hcalls++; free(x);
+                snprintf(hdr, sizeof hdr, quoted ? "\tboundary=\"%s\"\r\n" : "\tboundary=%s\r\n", boundary);
+            }
             x = strdup(hdr); hret += zck_header_cb(x, 1, strlen(hdr), dl) == strlen(hdr); hcalls++; free(x);
             x = strdup("\r\n"); hret += zck_header_cb(x, 1, 2, dl) == 2; hcalls++; free(x);
             /* body fragments */
